@@ -4,11 +4,13 @@
 package main
 
 import (
+	"errors"
 	"fmt"
 	"strings"
 	"time"
 
 	"github.com/ProtonMail/gluon"
+	"github.com/ProtonMail/gluon/limits"
 
 	"verifharness/common"
 	"verifharness/imapc"
@@ -204,6 +206,17 @@ func observe(l [4]uint32, o mstore.Op, ob mstore.Obs, before, after mstore.Dump,
 		}
 		if len(before.Mboxes) != len(after.Mboxes) {
 			vs = append(vs, violation{"restating-operation-changed-a-mailbox", fmt.Sprintf("%s: %d mailboxes before, %d after", o, len(before.Mboxes), len(after.Mboxes))})
+		}
+	}
+	// a refused operation leaves nothing behind in memory either: the recovery mailbox never holds one literal twice
+	if rec := after.Get(mstore.RecoveryName); rec != nil {
+		seen := map[int]bool{}
+		for _, r := range rec.Rows {
+			if r.Lit >= 0 && seen[r.Lit] {
+				vs = append(vs, violation{"recovered-twice", fmt.Sprintf("after %s the recovery mailbox holds literal %d more than once", o, r.Lit)})
+				break
+			}
+			seen[r.Lit] = true
 		}
 	}
 	if f := fits(l, o, before, id); f != "" && ob.Class != "ok" {
@@ -480,9 +493,21 @@ func newLits(n int) *mstore.Literals {
 	return l
 }
 
+// startRefused: the server could not start because the connector's announcement of INBOX was refused by a limit although
+// the recovery mailbox and INBOX fit (maximum >= 2): an operation that fits was refused.
+func startRefused(lim [4]uint32, err error) *violation {
+	if err != nil && lim[0] >= 2 && errors.Is(err, limits.ErrMaxMailboxCountReached) {
+		return &violation{"fitting-operation-refused", fmt.Sprintf("server start: the connector's MailboxCreated for INBOX (second mailbox, limit %d) was refused: %v", lim[0], err)}
+	}
+	return nil
+}
+
 func runOps(lim [4]uint32, ops []mstore.Op, nlits int) (*violation, error) {
 	lits := newLits(nlits)
 	w, err := mstore.NewWorld(mstore.Config{Burn: 20, Limits: &lim}, lits)
+	if v := startRefused(lim, err); v != nil {
+		return v, nil
+	}
 	if err != nil {
 		return nil, err
 	}
@@ -742,11 +767,34 @@ func runC17(ctx *common.Ctx) error {
 			{Kind: "connmsgs", Batch: []mstore.BatchMsg{{Lit: 0, Mboxes: []string{"a", "INBOX"}}, {Lit: 1, Mboxes: []string{"a"}}}}, {Kind: "connremsg"},
 			cp("copy", "a", []int{1, 2}, "a"), {Kind: "connremsg"}, cp("copy", "a", []int{9}, "INBOX"), {Kind: "connrestate", Name: "a"}, {Kind: "statecreate", Names: []string{"INBOX", "a"}}}},
 	)
+	rej := func(name string, lit int) mstore.Op {
+		return mstore.Op{Kind: "append", Name: name, Lit: lit, Remote: "fail"}
+	}
+	corpus = append(corpus,
+		// CREATE with missing superiors when fewer slots are free than new names: refused, and nothing is left behind, neither
+		// in gluon nor at the connector (its echo is drained after every refused CREATE)
+		c17Case{Limits: [4]uint32{4, 5, 100, 1 << 31}, Ops: []mstore.Op{mk("a/b/c"), mk("x"), mk("x/y/z"), mk("x/y"), mk("q")}},
+		c17Case{Limits: [4]uint32{5, 5, 100, 1 << 31}, Ops: []mstore.Op{mk("a"), mk("a/b/c/d"), mk("a/b/c"), mk("a/b"), mk("p/q")}},
+		// the connector creates mailboxes up to exactly the limit; the one that fills the last slot must be accepted
+		c17Case{Limits: [4]uint32{4, 5, 100, 1 << 31}, Ops: []mstore.Op{{Kind: "conncreate", Name: "k"}, {Kind: "conncreate", Name: "w"}, {Kind: "conncreate", Name: "x"},
+			{Kind: "statecreate", Names: []string{"k", "w"}}}},
+		c17Case{Limits: [4]uint32{3, 5, 100, 1 << 31}, Ops: []mstore.Op{{Kind: "statecreate", Names: []string{"INBOX", "s"}}, {Kind: "conncreate", Name: "k"}}},
+		// a MOVE out of the recovery mailbox refused because the destination is full, then the same messages rejected again:
+		// they are still known, each literal stays in the recovery mailbox once
+		c17Case{Limits: [4]uint32{6, 1, 100, 1 << 31}, Ops: []mstore.Op{mk("t"), rej("t", 1), rej("t", 2), ap("INBOX", 0),
+			cp("move", mstore.RecoveryName, []int{1, 2}, "INBOX"), rej("t", 1), rej("t", 2), cp("move", mstore.RecoveryName, []int{1}, "t"), rej("t", 1)}},
+		c17Case{Limits: [4]uint32{6, 2, 4, 1 << 31}, Ops: []mstore.Op{mk("t"), rej("t", 3), rej("t", 4), ap("t", 0), ap("t", 1),
+			cp("move", mstore.RecoveryName, []int{1, 2}, "t"), cp("copy", mstore.RecoveryName, []int{2}, "t"), rej("INBOX", 4), rej("INBOX", 3)}},
+	)
 	runFixed := func(cs *c17Case) error {
 		ctx.Current(fmt.Sprintf("history limits(%s) [%s]", limStr(cs.Limits), mstore.OpsString(cs.Ops)), cs)
 		lits := newLits(nlits)
 		lim := cs.Limits
 		w, err := mstore.NewWorld(mstore.Config{Burn: 20, Limits: &lim}, lits)
+		if v := startRefused(lim, err); v != nil {
+			res.Fail(fmt.Sprintf("%s limits(%s) [server start: connector announces INBOX]", v.Kind, limStr(lim)), v.Detail, cs)
+			return nil
+		}
 		if err != nil {
 			return err
 		}
@@ -792,6 +840,10 @@ func runC17(ctx *common.Ctx) error {
 		cs := &c17Case{ID: id, Limits: lim}
 		lits := newLits(nlits)
 		w, err := mstore.NewWorld(mstore.Config{Burn: 20, Limits: &lim}, lits)
+		if v := startRefused(lim, err); v != nil {
+			res.Fail(fmt.Sprintf("%s limits(%s) [server start: connector announces INBOX]", v.Kind, limStr(lim)), v.Detail, cs)
+			continue
+		}
 		if err != nil {
 			return err
 		}
